@@ -2,9 +2,19 @@
 // Every history runs in a fresh thread (fresh thread_local caches).  After every operation the
 // DSPLIB_VERIF hooks report the keys of both caches in recency order (lock-step correspondence with
 // the Lean LRU/factory model) and the result is compared bit-exactly with the fresh-thread result.
+// Histories INCLUDE REJECTED CALLS (odd irfft lengths, wrong bin counts, plan objects applied to the wrong length, empty
+// inputs, istft with an odd nfft / wrong frame length, stft with overlap >= nwin): each must throw exactly as in a fresh
+// thread, its cache traffic is part of the lock-step model, and every LATER valid call must still give the fresh-thread bits.
+// SOAK: one thread issues > 2^32 operations on the LRU container (lib/lru-cache.h, every operation in lock-step with a
+// reference LRU; both tiers) and, through the public API, 2^26 (quick) / > 2^32 (thorough) plan requests per cache, with
+// lock-step key comparison (hook + Lean model) at checkpoints and in dense windows around every power of two up to 2^32.
+#pragma GCC optimize("O2")   // the soak loops run > 2^32 iterations
 #include "common.hpp"
+#include "lru-cache.h"
 #include <thread>
 #include <map>
+#include <algorithm>
+#include <chrono>
 using namespace dsplib;
 
 namespace dsplib {
@@ -15,12 +25,22 @@ int verif_fft_cache_capacity();
 
 static vh::Out out;
 
-struct Op { char kind; int n; int m; };   // kind: c fft(cmplx), r fft(real), i irfft(n) full spectrum, h irfft(n) half spectrum, f ifft(n), z czt(n,m)
+// kind (valid calls):   c fft(cmplx), r fft(real), i irfft(n) full spectrum, h irfft(n) half spectrum, f ifft(n), z czt(n,m),
+//                       s istft(stft(x)) with nfft = n (default window, onesided, wola),
+//                       k IfftPlanR(n) object: a call with a wrong bin count is rejected, then the SAME object inverts rfft(x)   (result = that of i<n>)
+//                       K FftPlan(n) object: a call with n+1 samples is rejected, then the SAME object transforms x             (result = that of c<n>)
+// kind (rejected calls, each must throw): o irfft(X, n) with odd n (n bins), O IfftPlanR(n) with odd n, w irfft(n/2 bins, n),
+//                       p FftPlan(n)(n+1 samples), q FftPlanR(n)(n+1 samples), j IfftPlan(n)(n+1 samples), Z CztPlan(n,m)(n+1 samples),
+//                       S istft with odd nfft = n, U istft with frames one bin too long (nfft = n), T stft with overlap = nwin = n,
+//                       E fft / ifft / rfft / irfft of an EMPTY array
+struct Op { char kind; int n; int m; };
+
+static bool is_rejected_kind(char k) { return std::strchr("oOwpqjZSUTE", k) != nullptr; }
 
 static std::string op_str(const Op& o) {
     std::string s(1, o.kind);
     s += std::to_string(o.n);
-    if (o.kind == 'z') s += ":" + std::to_string(o.m);
+    if (o.kind == 'z' || o.kind == 'Z') s += ":" + std::to_string(o.m);
     return s;
 }
 
@@ -35,33 +55,106 @@ static arr_real in_r(int n) {
     return x;
 }
 
-// result of one operation as a flat vector of doubles
-static std::vector<double> run_op(const Op& o) {
-    std::vector<double> r;
-    auto push = [&](const arr_cmplx& y) { for (int i = 0; i < y.size(); ++i) { r.push_back(y[i].re); r.push_back(y[i].im); } };
-    switch (o.kind) {
-    case 'c': push(fft(in_c(o.n))); break;
-    case 'f': push(ifft(in_c(o.n))); break;
-    case 'r': push(fft(in_r(o.n))); break;
-    case 'i': { auto y = irfft(fft(in_r(o.n)), o.n); for (int i = 0; i < y.size(); ++i) r.push_back(y[i]); break; }
-    case 'h': {   // irfft from the first n/2+1 bins only (same bin count as a full spectrum of length n/2+1)
-        const arr_cmplx X = fft(in_r(o.n));
-        auto y = irfft(arr_cmplx(X.slice(0, o.n / 2 + 1)), o.n);
-        for (int i = 0; i < y.size(); ++i) r.push_back(y[i]);
-        break;
-    }
-    case 'z': push(czt(in_c(o.n), o.m, expj(-2 * pi / (o.m + 1.5)), cmplx_t(1.0, 0.0))); break;
-    }
-    return r;
+struct Result {
+    bool threw = false;        // the call as a whole ended with an exception
+    bool inner_accepted = false;   // k / K / E: a call that had to be rejected returned normally
+    std::vector<double> v;     // the values returned (flattened)
+};
+
+template<class F>
+static bool throws(F f) {
+    try { f(); } catch (const std::exception&) { return true; }
+    return false;
 }
 
-static std::map<std::string, std::vector<double>> g_ref;
+// result of one operation as a flat vector of doubles
+static Result run_op(const Op& o) {
+    Result R;
+    std::vector<double>& r = R.v;
+    auto push = [&](const arr_cmplx& y) { for (int i = 0; i < y.size(); ++i) { r.push_back(y[i].re); r.push_back(y[i].im); } };
+    auto pushr = [&](const arr_real& y) { for (int i = 0; i < y.size(); ++i) r.push_back(y[i]); };
+    const cmplx_t zw = expj(-2 * pi / (o.m + 1.5));
+    try {
+        switch (o.kind) {
+        case 'c': push(fft(in_c(o.n))); break;
+        case 'f': push(ifft(in_c(o.n))); break;
+        case 'r': push(fft(in_r(o.n))); break;
+        case 'i': pushr(irfft(fft(in_r(o.n)), o.n)); break;
+        case 'h': {   // irfft from the first n/2+1 bins only (same bin count as a full spectrum of length n/2+1)
+            const arr_cmplx X = fft(in_r(o.n));
+            pushr(irfft(arr_cmplx(X.slice(0, o.n / 2 + 1)), o.n));
+            break;
+        }
+        case 'z': push(czt(in_c(o.n), o.m, zw, cmplx_t(1.0, 0.0))); break;
+        case 's': {
+            const arr_real x = in_r(3 * o.n + o.n / 2 + 1);
+            const auto S = stft(x, o.n, StftRange::Onesided);
+            pushr(istft(S, o.n, StftRange::Onesided, OverlapMethod::Wola));
+            break;
+        }
+        case 'k': {
+            const IfftPlanR P(o.n);
+            if (!throws([&] { (void)P(in_c(o.n / 2)); })) R.inner_accepted = true;
+            pushr(P(fft(in_r(o.n))));
+            break;
+        }
+        case 'K': {
+            const FftPlan P(o.n);
+            if (!throws([&] { (void)P(in_c(o.n + 1)); })) R.inner_accepted = true;
+            push(P(in_c(o.n)));
+            break;
+        }
+        // ---- calls that must be rejected
+        case 'o': pushr(irfft(in_c(o.n), o.n)); break;
+        case 'O': { const IfftPlanR P(o.n); r.push_back(P.size()); break; }
+        case 'w': pushr(irfft(in_c(o.n / 2), o.n)); break;
+        case 'p': { const FftPlan P(o.n); push(P(in_c(o.n + 1))); break; }
+        case 'q': { const FftPlanR P(o.n); push(P(in_r(o.n + 1))); break; }
+        case 'j': { const IfftPlan P(o.n); push(P(in_c(o.n + 1))); break; }
+        case 'Z': { const CztPlan P(o.n, o.m, zw, cmplx_t(1.0, 0.0)); push(P(in_c(o.n + 1))); break; }
+        case 'S': {   // odd nfft
+            const std::vector<arr_cmplx> F(2, in_c(o.n / 2 + 1));
+            pushr(istft(F, window::hann(o.n - 1, false), (o.n - 1) / 2, o.n, StftRange::Onesided, OverlapMethod::Wola));
+            break;
+        }
+        case 'U': {   // frames one bin too long for the range
+            const std::vector<arr_cmplx> F(2, in_c(o.n / 2 + 2));
+            pushr(istft(F, window::hann(o.n, false), o.n / 2, o.n, StftRange::Onesided, OverlapMethod::Wola));
+            break;
+        }
+        case 'T': { const auto S = stft(in_r(4 * o.n), window::hann(o.n, false), o.n, o.n, StftRange::Onesided); r.push_back(double(S.size())); break; }
+        case 'E': {
+            int nthrown = 0;
+            nthrown += throws([] { (void)fft(arr_cmplx()); });
+            nthrown += throws([] { (void)ifft(arr_cmplx()); });
+            nthrown += throws([] { (void)fft(arr_real()); });
+            nthrown += throws([] { (void)irfft(arr_cmplx()); });
+            if (nthrown != 4) { R.inner_accepted = true; r.push_back(nthrown); break; }
+            throw std::runtime_error("all four rejected");
+        }
+        }
+    } catch (const std::exception&) {
+        R.threw = true;
+        R.v.clear();
+    }
+    return R;
+}
 
-static const std::vector<double>& reference(const Op& o) {
+// the operation whose fresh-thread result is the reference (k / K: the plain valid call, no failed call involved)
+static Op ref_op(const Op& o) {
+    if (o.kind == 'k') return {'i', o.n, 0};
+    if (o.kind == 'K') return {'c', o.n, 0};
+    return o;
+}
+
+static std::map<std::string, Result> g_ref;
+
+static const Result& reference(const Op& o0) {
+    const Op o = ref_op(o0);
     const std::string k = op_str(o);
     auto it = g_ref.find(k);
     if (it != g_ref.end()) return it->second;
-    std::vector<double> r;
+    Result r;
     std::thread t([&] { r = run_op(o); });
     t.join();
     return g_ref[k] = r;
@@ -70,6 +163,7 @@ static const std::vector<double>& reference(const Op& o) {
 static bool same_bits(const std::vector<double>& a, const std::vector<double>& b) {
     return a.size() == b.size() && (a.empty() || std::memcmp(a.data(), b.data(), a.size() * sizeof(double)) == 0);
 }
+static bool same_bits(const Result& a, const Result& b) { return a.threw == b.threw && same_bits(a.v, b.v); }
 
 static std::string hist_json(const std::vector<Op>& h, int upto, const char* what) {
     std::string s = "{\"op\":\"history\",\"what\":\"";
@@ -103,15 +197,22 @@ static void run_history(const std::vector<Op>& h, bool with_long_lived, bool emi
             const auto got = run_op(o);
             vh::clear_current();
             out.n_oracle++;
-            if (!same_bits(got, reference(o))) out.fail("C10:history-dependence", hist_json(h, int(i), "result differs from the fresh-thread result"));
+            if (!same_bits(got, reference(o)))
+                out.fail("C10:history-dependence", hist_json(h, int(i), got.threw != reference(o).threw ? "outcome (exception or not) differs from the fresh-thread outcome"
+                                                                                                          : "result differs from the fresh-thread result"));
+            if ((is_rejected_kind(o.kind) && !got.threw) || got.inner_accepted)
+                out.fail("C10:rejected-call-accepted", hist_json(h, int(i), "a call that must be rejected returned normally"));
+            if (!is_rejected_kind(o.kind) && got.threw) out.fail("C10:valid-call-threw", hist_json(h, int(i), "a valid call ended with an exception"));
+            out.stat(is_rejected_kind(o.kind) ? "ops_rejected_calls" : "ops_valid_calls");
+            if (!is_rejected_kind(o.kind) && i > 0 && is_rejected_kind(h[i - 1].kind)) out.stat("valid_calls_directly_after_a_rejected_call");
             const auto kc = verif_fft_cache_keys();
             const auto kr = verif_rfft_cache_keys();
             rhs += " C " + std::to_string(kc.size()) + vh::join_ints(kc) + " R " + std::to_string(kr.size()) + vh::join_ints(kr);
             if (int(kc.size()) > cap || int(kr.size()) > cap) out.fail("C10:cache-exceeds-capacity", hist_json(h, int(i), "more plans cached than DSPLIB_FFT_CACHE_SIZE"));
             // the plan used last (if it is cacheable) must be the most recent entry of its cache
             auto small = [](int n) { return n == 1 || n == 2 || n == 4 || n == 8; };
-            if ((o.kind == 'c' || o.kind == 'f') && !small(o.n)) { if (kc.empty() || kc[0] != o.n) out.fail("C10:mru-not-cached", hist_json(h, int(i), "most recently used complex length is not the front entry")); }
-            if (o.kind == 'r' && !small(o.n)) { if (kr.empty() || kr[0] != o.n) out.fail("C10:mru-not-cached", hist_json(h, int(i), "most recently used real length is not the front entry")); }
+            if (std::strchr("cfKpj", o.kind) && !small(o.n)) { if (kc.empty() || kc[0] != o.n) out.fail("C10:mru-not-cached", hist_json(h, int(i), "most recently used complex length is not the front entry")); }
+            if ((o.kind == 'r' || o.kind == 'q') && !small(o.n)) { if (kr.empty() || kr[0] != o.n) out.fail("C10:mru-not-cached", hist_json(h, int(i), "most recently used real length is not the front entry")); }
             (void)last_c; (void)last_r;
             out.stat(kc.size() >= size_t(cap) ? "complex_cache_full" : "complex_cache_not_full");
         }
@@ -122,9 +223,19 @@ static void run_history(const std::vector<Op>& h, bool with_long_lived, bool emi
             a = flat((*p60)(in_c(60)));
             b = flat((*p47)(in_c(47)));
             c = flat((*r90)(in_r(90)));
+            // copies of plan objects stay valid after the original is gone (copy-construct, copy-assign)
+            {
+                const FftPlan c60(*p60);
+                FftPlanR c90(*r90);
+                c90 = *r90;
+                p60.reset();
+                r90.reset();
+                if (!same_bits(flat(c60(in_c(60))), a) || !same_bits(flat(c90(in_r(90))), c) || c60.size() != 60 || c90.size() != 90)
+                    out.fail("C10:long-lived-plan", hist_json(h, int(h.size()), "a COPY of a plan object gives a different result once the original is destroyed"));
+            }
             vh::clear_current();
-            out.n_oracle += 3;
-            if (!same_bits(a, reference(ll_ops[0])) || !same_bits(b, reference(ll_ops[1])) || !same_bits(c, reference(ll_ops[2])))
+            out.n_oracle += 4;
+            if (!same_bits(a, reference(ll_ops[0]).v) || !same_bits(b, reference(ll_ops[1]).v) || !same_bits(c, reference(ll_ops[2]).v))
                 out.fail("C10:long-lived-plan", hist_json(h, int(h.size()), "a plan object obtained before the history no longer gives the fresh-thread result"));
         }
     });
@@ -149,10 +260,314 @@ static void enumerate(const std::vector<Op>& alphabet, int maxlen, bool ll) {
     rec();
 }
 
+// ================================================================ SOAK: very long single-thread histories
+// Nothing in the property bounds the number of requests a thread makes: "the most recently used ones" must hold
+// after arbitrarily many requests (use counters / clocks of any width must not wrap into wrong evictions).
+struct Side {   // results of a background thread, merged by the main thread at the end
+    std::vector<std::pair<std::string, std::string>> corr;
+    std::vector<std::pair<std::string, std::string>> fails;
+    std::map<std::string, long long> stats;
+    long long n_oracle = 0;
+    void fail(const std::string& k, const std::string& js) { if (fails.size() < 12) fails.push_back({k, js}); stats["soak_failures"]++; }
+};
+
+// reference LRU: keys, most recently used first
+struct RefLru {
+    int cap;
+    std::vector<int> keys;
+    explicit RefLru(int c) : cap(c) {}
+    bool has(int k) const { return std::find(keys.begin(), keys.end(), k) != keys.end(); }
+    bool request(int k) {   // true on miss
+        auto it = std::find(keys.begin(), keys.end(), k);
+        const bool miss = it == keys.end();
+        if (!miss) keys.erase(it);
+        keys.insert(keys.begin(), k);
+        if (int(keys.size()) > cap) keys.pop_back();
+        return miss;
+    }
+};
+
+static std::string ints_json(const std::vector<int>& v) { return vh::jints(v); }
+
+// dense lock-step windows: the start, [2^k - half, 2^k + half] for every k >= 8 (a use counter of any width wraps at a power of two),
+// and a little later (2^31 + 2^16, 2^32 + 2^16, 2^32 + 2^20: entries stamped before a wrap and never touched again)
+struct Windows {
+    uint64_t half, ws, we;   // the current / next window [ws, we)
+    std::vector<uint64_t> centres;
+    size_t next = 0;
+    explicit Windows(uint64_t h) : half(h), ws(0), we(2 * h) {
+        for (int k = 8; k < 48; ++k) centres.push_back(1ull << k);
+        for (uint64_t c : {(1ull << 31) + (1ull << 16), (1ull << 32) + (1ull << 16), (1ull << 32) + (1ull << 20), (1ull << 16) + (1ull << 12), (1ull << 24) + (1ull << 16)}) centres.push_back(c);
+        std::sort(centres.begin(), centres.end());
+    }
+    void advance() {
+        while (next < centres.size() && centres[next] + half + 1 <= we) ++next;
+        const uint64_t p = next < centres.size() ? centres[next] : ~0ull - half - 1;
+        ws = std::max(we, p - half);
+        we = p + half + 1;
+    }
+    bool dense(uint64_t t) {
+        while (t >= we) advance();
+        return t >= ws;
+    }
+};
+
+// reference LRU for the container soak: fixed array, most recently used first (a few ns per operation)
+struct FastLru {
+    int cap, n = 0;
+    int k[64];
+    explicit FastLru(int c) : cap(std::min(c, 63)) {}
+    int find(int key) const { for (int i = 0; i < n; ++i) if (k[i] == key) return i; return -1; }
+    void use(int key, int pos) {   // pos = find(key)
+        if (pos < 0) { pos = n < cap ? n++ : n - 1; }
+        for (int i = pos; i > 0; --i) k[i] = k[i - 1];
+        k[0] = key;
+    }
+    std::vector<int> keys() const { return std::vector<int>(k, k + n); }
+};
+
+// (1) the container itself (lib/lru-cache.h as compiled into the harness): every operation in lock-step with the reference
+static void soak_container(uint64_t total, int cap, uint64_t seed, Side& R) {
+    LRUCache<int, int> c(cap);
+    FastLru ref(cap);
+    const int nh = std::max(1, std::min(cap, 3));
+    uint64_t x = seed * 0x9e3779b97f4a7c15ULL + 77;
+    uint64_t t = 0, hits = 0, misses = 0, windows = 0, orders = 0;
+    int cyc = 0;
+    auto value_of = [](int k) { return k * 7919 + 13; };
+    std::vector<int> kk;
+    bool bad = false;
+    std::string wl, wr;   // a window's CORR line under construction
+    int wn = 0;
+    const auto t0 = std::chrono::steady_clock::now();
+    Windows W(160);
+    auto order_check = [&](int k) {
+        kk.clear();
+        c.keys(kk);
+        ++orders;
+        if (kk != ref.keys() || c.size() != ref.n) {
+            bad = true;
+            R.fail("C10:lru-not-most-recently-used", "{\"what\":\"LRUCache<int,int> in lock-step with a reference LRU: key order differs\",\"operation_number\":" + std::to_string(t - 1) +
+                                                     ",\"capacity\":" + std::to_string(cap) + ",\"key\":" + std::to_string(k) + ",\"library_keys_mru_first\":" + ints_json(kk) +
+                                                     ",\"reference_keys_mru_first\":" + ints_json(ref.keys()) + "}");
+        }
+    };
+    auto differs = [&](int k, bool ex) {
+        bad = true;
+        R.fail("C10:lru-not-most-recently-used", "{\"what\":\"LRUCache<int,int> in lock-step with a reference LRU: exists(key) differs\",\"operation_number\":" + std::to_string(t) +
+                                                 ",\"capacity\":" + std::to_string(cap) + ",\"key\":" + std::to_string(k) + ",\"library_exists\":" + (ex ? "true" : "false") +
+                                                 ",\"reference_keys_mru_first\":" + ints_json(ref.keys()) + "}");
+    };
+    // lookup-or-create, compared with the reference.  `probe`: ask exists() first (as create_fft_plan does); otherwise a key the
+    // reference holds is fetched with get() directly (one hash lookup; a missing key throws, caught below)
+    auto one = [&](int k, bool probe) {
+        const int pos = ref.find(k);
+        if (probe || pos < 0) {
+            const bool ex = c.exists(k);
+            if (ex != (pos >= 0)) { differs(k, ex); return; }
+        }
+        if (pos >= 0) {
+            ++hits;
+            if (c.get(k) != value_of(k)) { bad = true; R.fail("C10:lru-wrong-value", "{\"operation_number\":" + std::to_string(t) + ",\"key\":" + std::to_string(k) + "}"); }
+        } else {
+            ++misses;
+            c.put(k, value_of(k));
+        }
+        ref.use(k, pos);
+        ++t;
+    };
+    try {
+    while (t < total && !bad) {
+        if (W.dense(t) || (t & ((1ull << 24) - 1)) < 48) {
+            // dense: uniform over 8 keys, full key order after every operation, replayed by the Lean model from the window's start state
+            x = x * 6364136223846793005ULL + 1442695040888963407ULL;
+            const int k = int(uint32_t(x >> 33) % 8);
+            if (wn == 0) { const auto ks = ref.keys(); wl = "lru " + std::to_string(cap) + " " + std::to_string(ks.size()) + vh::join_ints(ks); wr.clear(); }
+            one(k, true);
+            if (bad) break;
+            order_check(k);
+            wl += " " + std::to_string(k);
+            wr += " " + std::to_string(kk.size()) + vh::join_ints(kk);
+            if (++wn == 32) { R.corr.push_back({wl, wr.substr(1)}); wn = 0; ++windows; }
+            continue;
+        }
+        if (wn) { R.corr.push_back({wl, wr.substr(1)}); wn = 0; ++windows; }
+        // bulk up to the next window: the hot keys, now and then one of 8 keys (miss, eviction, the evicted hot key returns)
+        uint64_t stop = std::min(total, (t | 0xfffff) + 1);
+        if (W.ws > t) stop = std::min(stop, W.ws);
+        stop = std::min<uint64_t>(stop, (t | ((1ull << 24) - 1)) + 1);
+        // (a predictable cycle: a random choice costs twice the time in branch mispredictions)
+        uint64_t tt = t, hh = 0;
+        int cy = cyc;
+        while (tt < stop) {
+            if ((tt & 15) == 15) {   // every 16th operation through the general path: exists() first; every 128th a key outside the cycle
+                t = tt;
+                if ((tt & 127) == 127) {
+                    x = x * 6364136223846793005ULL + 1442695040888963407ULL;
+                    one(int((x >> 40) & 7), (x >> 50) & 1);
+                } else {
+                    if (++cy >= nh) cy = 0;
+                    one(cy, true);
+                }
+                if (bad) break;
+                tt = t;
+                continue;
+            }
+            if (++cy >= nh) cy = 0;
+            const int pos = ref.find(cy);
+            if (pos < 0) { t = tt; one(cy, false); if (bad) break; tt = t; continue; }
+            if (c.get(cy) != value_of(cy)) { t = tt; bad = true; R.fail("C10:lru-wrong-value", "{\"operation_number\":" + std::to_string(tt) + ",\"key\":" + std::to_string(cy) + "}"); break; }
+            ref.use(cy, pos);
+            ++hh;
+            ++tt;
+        }
+        if (!bad) t = tt;
+        hits += hh;
+        cyc = cy;
+        if (!bad) order_check(-1);
+    }
+    } catch (const std::exception& e) {   // get() of a key the reference holds
+        bad = true;
+        R.fail("C10:lru-not-most-recently-used", "{\"what\":\"LRUCache<int,int> in lock-step with a reference LRU: get(key) threw for a key that is among the most recently used\",\"operation_number\":" +
+                                                 std::to_string(t) + ",\"capacity\":" + std::to_string(cap) + ",\"exception\":\"" + e.what() + "\",\"reference_keys_mru_first\":" + ints_json(ref.keys()) + "}");
+    }
+    if (wn && !bad) { R.corr.push_back({wl, wr.substr(1)}); ++windows; }
+    R.n_oracle += (long long)std::min<uint64_t>(t, 1ull << 62);
+    R.stats["soak_container_operations"] = (long long)t;
+    R.stats["soak_container_hits"] = (long long)hits;
+    R.stats["soak_container_misses"] = (long long)misses;
+    R.stats["soak_container_full_order_comparisons"] = (long long)orders;
+    R.stats["soak_container_corr_windows"] = (long long)windows;
+    R.stats["soak_container_ms"] = (long long)(std::chrono::duration<double>(std::chrono::steady_clock::now() - t0).count() * 1e3);
+}
+
+// (2) through the public API: plan requests of one thread; `real` selects the cache (FftPlanR / FftPlan)
+static void soak_api(uint64_t total, bool real, uint64_t seed, Side& R) {
+    const int cap = verif_fft_cache_capacity();
+    const char* nm = real ? "real" : "complex";
+    const int P2[6] = {16, 32, 64, 128, 256, 512};   // no sub-plan requests into the same cache: one request = one cache operation
+    RefLru ref(cap);
+    const int nh = std::max(1, std::min(cap, 2));
+    uint64_t x = seed * 0xbf58476d1ce4e5b9ULL + (real ? 5 : 3);
+    uint64_t t = 0, windows = 0, checkpoints = 0;
+    long long sink = 0;
+    bool bad = false;
+    auto mine = [&] { return real ? verif_rfft_cache_keys() : verif_fft_cache_keys(); };
+    auto request = [&](int n) { if (real) { const FftPlanR p(n); sink += p.size(); } else { const FftPlan p(n); sink += p.size(); } };
+    auto keys_str = [&] {
+        const auto kc = verif_fft_cache_keys();
+        const auto kr = verif_rfft_cache_keys();
+        return "C " + std::to_string(kc.size()) + vh::join_ints(kc) + " R " + std::to_string(kr.size()) + vh::join_ints(kr);
+    };
+    auto check = [&](const char* where) {
+        const auto k = mine();
+        ++checkpoints;
+        R.n_oracle++;
+        if (k != ref.keys) {
+            bad = true;
+            R.fail("C10:soak-not-most-recently-used", std::string("{\"what\":\"one thread, plan requests through the public API in lock-step with a reference LRU\",\"cache\":\"") + nm +
+                                                      "\",\"where\":\"" + where + "\",\"requests_so_far\":" + std::to_string(t) + ",\"capacity\":" + std::to_string(cap) +
+                                                      ",\"library_keys_mru_first\":" + ints_json(k) + ",\"reference_keys_mru_first\":" + ints_json(ref.keys) + "}");
+        }
+    };
+    // a plan object obtained at the very beginning must stay valid and correct all the way
+    const FftPlan ll(48);
+    const arr_cmplx ll_ref = ll(in_c(48));
+    ref.keys = mine();   // 48 = 16 * 3: the model of the nested requests is the Lean model's business (first window)
+    const auto t0 = std::chrono::steady_clock::now();
+    Windows W(96);
+    const uint64_t PM = (1ull << 26) - 1, PO = 1ull << 25;   // periodic windows at 2^25 (mod 2^26)
+    while (t < total && !bad) {
+        if (W.dense(t) || ((t & PM) >= PO && (t & PM) < PO + 64)) {
+            // ---- window: 48 mixed requests (pow2, composites sharing prime leaves, CZT prime, the other cache), hook after EVERY request,
+            //      replayed by the Lean model from the state at the window's start
+            std::string lhs = "win " + std::to_string(cap) + " " + keys_str() + " 48", rhs;
+            for (int j = 0; j < 48 && !bad; ++j) {
+                x = x * 6364136223846793005ULL + 1442695040888963407ULL;
+                const uint32_t r = uint32_t(x >> 33);
+                static const int MIX[12] = {16, 32, 64, 128, 256, 512, 60, 45, 47, 7, 100, 96};
+                const int n = MIX[r % 12];
+                const bool other = (r >> 8) % 8 == 0;   // a request to the other cache in between
+                const bool as_real = other ? !real : real;
+                if (as_real) { const FftPlanR p(n); sink += p.size(); } else { const FftPlan p(n); sink += p.size(); }
+                lhs += std::string(" ") + (as_real ? "r" : "c") + std::to_string(n);
+                rhs += " " + keys_str();
+                const auto k = mine();
+                R.n_oracle++;
+                if (int(k.size()) > cap) { bad = true; R.fail("C10:cache-exceeds-capacity", "{\"soak\":\"" + std::string(nm) + "\",\"requests_so_far\":" + std::to_string(t) + "}"); }
+                if (as_real == real && (k.empty() || k[0] != n)) {
+                    bad = true;
+                    R.fail("C10:soak-not-most-recently-used", std::string("{\"what\":\"the length requested last is not the front entry of the cache\",\"cache\":\"") + nm + "\",\"requests_so_far\":" +
+                                                              std::to_string(t) + ",\"length\":" + std::to_string(n) + ",\"library_keys_mru_first\":" + ints_json(k) + "}");
+                }
+                if (as_real == real) ++t;
+            }
+            R.corr.push_back({lhs, rhs.substr(1)});
+            ++windows;
+            ref.keys = mine();   // resynchronise the flat reference (the Lean model judges the window through CORR)
+            continue;
+        }
+        // ---- bulk: until the next window, hits on the hot lengths, every 2^16 requests a few misses; full key comparison after each block
+        uint64_t stop = std::min(total, (t | 0xffff) + 1);
+        if (W.ws > t) stop = std::min(stop, W.ws);   // do not run into a window
+        {
+            uint64_t g = (t & ~PM) + PO;
+            if (g <= t) g += PM + 1;
+            stop = std::min(stop, g);
+        }
+        if (stop <= t) stop = t + 1;
+        const int hot[2] = {P2[0], P2[1]};
+        for (uint64_t u = t; u < stop; ++u) {
+            const int n = hot[u % uint64_t(nh)];
+            request(n);
+            // reference: move to front (all hits after the first round)
+            if (ref.keys.empty() || ref.keys[0] != n) ref.request(n);
+        }
+        t = stop;
+        check("after a block of hits on the hot lengths");
+        if ((t & 0xfffff) == 0 && !bad) {   // a burst with misses and evictions, one comparison per request
+            for (int j = 0; j < 12 && !bad; ++j) {
+                x = x * 6364136223846793005ULL + 1442695040888963407ULL;
+                const int n = P2[(x >> 40) % 6];
+                request(n);
+                ref.request(n);
+                ++t;
+                check("burst of mixed power-of-two lengths");
+            }
+        }
+    }
+    // the long-lived plan
+    R.n_oracle++;
+    const arr_cmplx again = ll(in_c(48));
+    if (again.size() != ll_ref.size() || std::memcmp(again.data(), ll_ref.data(), sizeof(cmplx_t) * ll_ref.size()) != 0)
+        R.fail("C10:long-lived-plan", std::string("{\"what\":\"FftPlan(48) obtained before the soak gives different bits after it\",\"cache\":\"") + nm + "\",\"requests\":" + std::to_string(t) + "}");
+    R.stats[std::string("soak_api_") + nm + "_requests"] = (long long)t;
+    R.stats[std::string("soak_api_") + nm + "_lockstep_windows"] = (long long)windows;
+    R.stats[std::string("soak_api_") + nm + "_checkpoints"] = (long long)checkpoints;
+    R.stats[std::string("soak_api_") + nm + "_ms"] = (long long)(std::chrono::duration<double>(std::chrono::steady_clock::now() - t0).count() * 1e3);
+    if (sink == 42) R.stats["sink"] = 1;
+}
+
 int main(int argc, char** argv) {
     vh::Args a(argc, argv);
     vh::install_guards();
     vh::Rng rng(a.seed);
+    // ---- SOAK threads run beside the enumeration (thread_local caches: no interference)
+    //   VERIF_C10_SOAK = full : the > 2^32-operation soaks also in the quick tier;  = off : no soak, = only : nothing else (development aids)
+    const char* soak_env = std::getenv("VERIF_C10_SOAK");
+    const bool soak_off = soak_env && std::string(soak_env) == "off";
+    const bool soak_full = a.thorough || (soak_env && std::string(soak_env) == "full");
+    const uint64_t BEYOND = (1ull << 32) + (1ull << 21);
+    Side sk[3];
+    std::vector<std::thread> soakers;
+    const uint64_t SHORT = (1ull << 26) + (1ull << 13);
+    if (!soak_off) {
+        const int cap = verif_fft_cache_capacity();
+        soakers.emplace_back([&, cap] { soak_container(soak_full ? BEYOND : SHORT, cap, a.seed, sk[0]); });
+        soakers.emplace_back([&] { soak_api(soak_full ? BEYOND : SHORT, false, a.seed, sk[1]); });
+        soakers.emplace_back([&] { soak_api(soak_full ? BEYOND : SHORT, true, a.seed, sk[2]); });
+    }
+    vh::watch(a.thorough ? 10800 : 1800);   // the enumeration below (each history also names itself through set_current)
     // complex alphabet: pow2, composites sharing prime leaves (60 -> 3,4,5; 45 -> 3,3,5), CZT prime (47 -> 128,128), small prime, the CZT's pow2
     const std::vector<Op> AC = {{'c', 16, 0}, {'c', 60, 0}, {'c', 45, 0}, {'c', 47, 0}, {'c', 7, 0}, {'c', 128, 0}};
     // real alphabet (each also drives the complex cache)
@@ -161,29 +576,85 @@ int main(int argc, char** argv) {
     const std::vector<Op> AM = {{'c', 30, 0}, {'r', 60, 0}, {'i', 60, 0}, {'f', 15, 0}, {'z', 10, 7}, {'r', 43, 0}, {'c', 64, 0}, {'c', 8, 0}};
     // inverse real transforms given all n bins or only n/2+1 bins: 'i10' and 'h18' both pass 10 bins, 'i18'/'h34' both 18
     const std::vector<Op> AI = {{'i', 10, 0}, {'h', 18, 0}, {'i', 18, 0}, {'h', 34, 0}, {'h', 10, 0}, {'i', 6, 0}};
+    // inverse real transforms with REJECTED calls in between: the odd neighbours of the valid lengths (11 -> 10, 19 -> 18, 7 -> 6: same n/2),
+    // a wrong bin count, istft with an odd nfft, a plan object that has rejected a call
+    const std::vector<Op> AJ = {{'i', 10, 0}, {'h', 18, 0}, {'o', 11, 0}, {'O', 19, 0}, {'w', 10, 0}, {'S', 11, 0}, {'k', 18, 0}, {'i', 6, 0}, {'o', 7, 0}};
+    // forward / complex calls with rejected calls in between: plan objects applied to the wrong length, empty inputs, CZT plan on the wrong length,
+    // istft with frames of the wrong length, and the stft round trip
+    const std::vector<Op> AF = {{'c', 16, 0}, {'p', 16, 0}, {'K', 60, 0}, {'j', 45, 0}, {'r', 60, 0}, {'q', 60, 0}, {'E', 0, 0}, {'Z', 10, 7}, {'z', 10, 7}, {'U', 16, 0}, {'s', 16, 0}};
+    const bool soak_only = soak_env && std::string(soak_env) == "only";   // development aid: nothing but the soak
     const int L = a.thorough ? 7 : 5;
+    if (!soak_only) {
+    // every even n <= 64 (thorough 256) after each kind of rejected request for n+1 and n-1, as the first requests of a thread
+    for (int n = 2; n <= (a.thorough ? 256 : 64); n += 2)
+        for (char rk : {'o', 'O', 'S'})
+            for (char vk : {'i', 'h', 's'}) {
+                if (vk == 's' && (n < 4 || (n > 64 && n % 16))) continue;
+                if (rk == 'S' && n < 4) continue;
+                run_history({{rk, n + 1, 0}, {vk, n, 0}, {rk, n - 1, 0}, {vk, n, 0}, {'w', n, 0}, {vk, n, 0}}, false, n <= 64);
+            }
     enumerate(AC, L, false);
     enumerate(AR, L, false);
     enumerate(AM, a.thorough ? 5 : 4, false);
     enumerate(AI, a.thorough ? 5 : 4, false);
+    enumerate(AJ, a.thorough ? 5 : 4, false);
+    enumerate(AF, a.thorough ? 4 : 3, false);
     enumerate(AC, a.thorough ? 5 : 3, true);
+    enumerate(AJ, a.thorough ? 4 : 2, true);
     // random long histories over 40 lengths with long-lived plan objects interleaved
     std::vector<int> lens;
     for (int n : {3, 5, 6, 7, 9, 10, 11, 12, 15, 16, 18, 20, 21, 24, 25, 27, 30, 32, 33, 36, 41, 43, 45, 47, 48, 49, 50, 53, 60, 64, 77, 81, 90, 96, 100, 101, 120, 121, 128, 143}) lens.push_back(n);
     const int NH = a.thorough ? 200 : 20, HL = a.thorough ? 2000 : 400;
     for (int r = 0; r < NH; ++r) {
         std::vector<Op> h;
+        const bool faults = r % 4 != 3;   // three of four histories contain rejected calls (about one request in five)
         for (int i = 0; i < HL; ++i) {
             const int n = lens[rng.next() % lens.size()];
+            if (faults && rng.next() % 5 == 0) {
+                switch (rng.next() % 10) {
+                case 0: case 1: case 2: {   // "try n+1, fall back to n": odd request, mostly followed by an even neighbour
+                    const int odd = 2 * n + ((rng.next() & 1) ? 1 : -1);
+                    const char kinds[3] = {'o', 'O', 'S'};
+                    h.push_back({kinds[rng.next() % 3], odd, 0});
+                    if (rng.next() % 4) h.push_back({(rng.next() & 1) ? 'i' : 'h', (rng.next() % 3) ? odd - 1 : odd + 1, 0});
+                    break;
+                }
+                case 3: h.push_back({'w', 2 * n, 0}); break;
+                case 4: h.push_back({'p', n, 0}); break;
+                case 5: h.push_back({'q', n, 0}); break;
+                case 6: h.push_back({'j', n, 0}); break;
+                case 7: h.push_back({(rng.next() & 1) ? 'k' : 'U', 2 * n, 0}); break;
+                case 8: if (rng.next() & 1) h.push_back({'K', n, 0}); else h.push_back({'E', 0, 0}); break;
+                default: h.push_back({'Z', n, 1 + int(rng.next() % 40)}); break;
+                }
+                continue;
+            }
             switch (rng.next() % 8) {
             case 0: case 1: case 2: h.push_back({'c', n, 0}); break;
             case 3: case 4: h.push_back({'r', n, 0}); break;
             case 5: h.push_back({'f', n, 0}); break;
             case 6: h.push_back({(rng.next() & 1) ? 'i' : 'h', 2 * n, 0}); break;
-            default: h.push_back({'z', n, 1 + int(rng.next() % 40)}); break;
+            default:
+                if (rng.next() % 4 == 0) h.push_back({'s', 2 * n, 0});
+                else h.push_back({'z', n, 1 + int(rng.next() % 40)});
+                break;
             }
         }
         run_history(h, r % 2 == 0, true);
+    }
+    }   // !soak_only
+    // a slow or hanging soak is reported, not waited for
+    vh::set_current("C10:soak-timeout", std::string("{\"what\":\"the soak threads (LRU container / complex plan cache / real plan cache) did not finish in time\",\"operations_each\":") +
+                                            std::to_string(soak_full ? BEYOND : SHORT) + "}");
+    vh::watch(soak_full ? 2400 : 600);
+    for (auto& t : soakers) t.join();
+    vh::unwatch();
+    vh::clear_current();
+    for (auto& S : sk) {
+        for (auto& c : S.corr) out.corr(c.first, c.second);
+        for (auto& f : S.fails) out.fail(f.first, f.second);
+        for (auto& st : S.stats) out.stat(st.first, st.second);
+        out.n_oracle += S.n_oracle;
     }
     out.finish();
     return 0;
